@@ -28,11 +28,12 @@ Symbols == {<<"pass">>, <<"ell">>, <<"imp", "a">>, <<"imp", "b">>, <<"from", "os
            \cup Literals \cup DebugTruthy \cup DebugOther \cup Returns
 
 \* ---- contexts
-Contexts == {"module", "module_top", "function", "function_if", "class", "dataclass", "dataclass_if", "namedtuple", "if", "else", "for",
+Contexts == {"module", "module_top", "function", "function_if", "class", "dataclass", "dataclass_if", "dataclass_second", "dataclass_call", "dataclass_name",
+             "namedtuple", "namedtuple_name", "typeddict", "if", "else", "for",
              "while_else", "try", "except", "finally", "with"}
 IsModule(c)   == c \in {"module", "module_top"}
 InFunction(c) == c \in {"function", "function_if"}
-ClassKind(c)  == CASE c = "class" -> "plain" [] c \in {"dataclass", "dataclass_if", "namedtuple"} -> "sensitive" [] OTHER -> "none"
+ClassKind(c)  == CASE c = "class" -> "plain" [] c \in {"dataclass", "dataclass_if", "dataclass_second", "dataclass_call", "dataclass_name", "namedtuple", "namedtuple_name", "typeddict"} -> "sensitive" [] OTHER -> "none"
 WellFormed(c, blk) == \A k \in DOMAIN blk : (blk[k] \in Returns => InFunction(c))
 
 \* ---- environment facts of the enclosing module
